@@ -87,6 +87,8 @@ type Item struct {
 	Imports int   `json:"import_set"`
 	Second  []int `json:"second_run_fragments,omitempty"` // history: a second run renders this instead
 	Route   int   `json:"route_to_the_writer,omitempty"`  // index into routes
+	// the judged generator renders a declaration for the type before (then ErrIgnore) and after (then ErrSkip) the judged one
+	Markers bool `json:"renders_before_answering_ErrIgnore_and_ErrSkip,omitempty"`
 }
 
 func fragParts(idx []int) []string {
@@ -366,10 +368,11 @@ func judgeFile(c *core.Ctx, cs Case, m modSpec, gen, pkgName string, src []byte,
 		}
 		ref.WriteString(")\n")
 	}
+	ref.WriteString(refPre)
 	for i, p := range imports {
 		fmt.Fprintf(&ref, "var _%d_T_%s %s.X\n", i, gen, names[p])
 	}
-	ref.WriteString(fragText(frags))
+	ref.WriteString(fragText(frags) + refPost)
 	got, _, err1 := fumptFix(stripHeader(src), m)
 	want, _, err2 := fumptFix(ref.Bytes(), m)
 	if err1 != nil || err2 != nil {
@@ -458,6 +461,13 @@ func resolveImports(set []string, m modSpec) []string {
 	return out
 }
 
+const markIgn, markZz = "var RenderedThenIgnored = 1\n", "var RenderedThenSkipped = 2\n"
+
+func withMarkers(i int) bool { return i%3 == 1 }
+
+// refPre / refPost: what the judged generator rendered for the types before / after the judged one
+var refPre, refPost string
+
 func checkBatch(c *core.Ctx, mi int, items []Item) {
 	m := modules[mi]
 	dir := pipe.TempDir("c01")
@@ -466,6 +476,12 @@ func checkBatch(c *core.Ctx, mi int, items []Item) {
 	byType := map[string]pipe.Action{}
 	byType2 := map[string]pipe.Action{}
 	second := false
+	items = append([]Item{}, items...)
+	for i := range items {
+		// (not behind a fragment that lacks its final newline: the marker would be glued to it)
+		okEnd := func(fr []int) bool { t := fragText(fr); return t == "" || strings.HasSuffix(t, "\n") }
+		items[i].Markers = items[i].Markers || (withMarkers(i) && okEnd(items[i].Frags) && (items[i].Second == nil || okEnd(items[i].Second)))
+	}
 	for i, it := range items {
 		name := fmt.Sprintf("k%05d", i)
 		// directory name differs from the package name on purpose
@@ -476,6 +492,12 @@ func checkBatch(c *core.Ctx, mi int, items []Item) {
 		for _, bt := range []map[string]pipe.Action{byType, byType2} {
 			bt[m.path+"/p/"+name+"-dir.Ign"] = pipe.Action{Ret: "ignore"}
 			bt[m.path+"/p/"+name+"-dir.Zz"] = pipe.Action{Ret: "skip"}
+			if it.Markers {
+				// every third package: the generator first RENDERS a declaration for these types and then gives its
+				// answer (a registration line, then "not my kind of type"): what it rendered is rendered
+				bt[m.path+"/p/"+name+"-dir.Ign"] = pipe.Action{Render: markIgn, Ret: "ignore"}
+				bt[m.path+"/p/"+name+"-dir.Zz"] = pipe.Action{Render: markZz, Ret: "skip"}
+			}
 		}
 		byType[key] = actionFor(it.Frags, it.Route, resolveImports(importSets[it.Imports], m))
 		if it.Second != nil {
@@ -557,7 +579,12 @@ func checkBatch(c *core.Ctx, mi int, items []Item) {
 			if len(frags) >= 2 || it.Imports > 0 {
 				c.Nontrivial(fmt.Sprint(mi, it))
 			}
+			if it.Markers {
+				refPre, refPost = markIgn, markZz
+				what += ", the generator renders a declaration for the type before (then answers ErrIgnore) and after (then answers ErrSkip)"
+			}
 			judgeFile(c, cs, m, "g1", name, src, frags, resolveImports(importSets[it.Imports], m), what)
+			refPre, refPost = "", ""
 			// the other generator's file: exactly its own declaration and its deferred helper
 			if src2, err := os.ReadFile(dir + "/p/" + name + "-dir/zz_generated.g2.go"); err != nil {
 				c.Fail("", cs, "the second generator's file is missing: %v", err)
